@@ -217,6 +217,8 @@ func runDetStream(c *runCtx) {
 			c.obsCase(s.kind+"+mut", y, 3072)
 		}
 	}
+	// inputs synthesised from the translated terms of the current source (witness.go)
+	c.witnessStream("/repo")
 	// the byte right behind an occurrence of a signature literal is where length / width / count fields live: boundary
 	// values there (all values in the thorough tier) - a loop or an index driven by such a field shows up as a hang
 	// (watchdog) or a panic
@@ -301,6 +303,37 @@ func runDetStream(c *runCtx) {
 		cat([]byte("!<arch>\ndebian-binary"), make([]byte, 10)),
 		cat([]byte{0x89, 'P', 'N', 'G', 0x0D, 0x0A, 0x1A, 0x0A}, make([]byte, 29), []byte("acTL"), make([]byte, 4)),
 		cat([]byte{0, 0, 0x27, 0x0A}, make([]byte, 120)),
+	}
+	// small documents that exercise the hand-written text scanners (shebang lines, the meta prescan, the XML
+	// declaration); every single-byte deletion and duplication of each is tried as well: dropping a closing quote, a
+	// separator or the only non-blank byte is how an unguarded index into an empty or quote-less remainder shows
+	edge := [][]byte{
+		[]byte("<html><head><meta http-equiv=\"Content-Type\" content=\"text/html; charset='utf-8'\"></head></html>"),
+		[]byte("<html><head><meta http-equiv=\"Content-Type\" content='text/html; charset=\"koi8-r\"'></head></html>"),
+		[]byte("<html><meta http-equiv=content-type content=\"text/html;charset=x\"><meta charset=\"y\"></html>"),
+		[]byte("<!DOCTYPE html><meta charset='z'>"),
+		[]byte("<?xml version=\"1.0\" encoding=\"latin1\"?><a/>"),
+		[]byte("<?xml version='1.0' encoding = 'x' standalone='yes'?><a/>"),
+		[]byte("#!/usr/bin/env python\nprint(1)\n"),
+		[]byte("#! /bin/sh -e\n"),
+		[]byte("#!/usr/bin/php\n<?php echo 1;"),
+	}
+	for _, ws := range []string{" ", "\t", "\r", "\x0c", " \t\r\x0c"} {
+		for n := 0; n <= 26; n++ {
+			line := "#!" + strings.Repeat(ws, n)
+			edge = append(edge, []byte(line)[:min(len(line), 2+n)], []byte(line[:min(len(line), 2+n)]+"\nrest\n"))
+		}
+	}
+	for _, m := range edge {
+		c.obsCase("edge", m, 3072)
+		c.obsCase("edge", m, uint32(len(m)))
+		if len(m) > 120 || (len(m) > 2 && m[1] == '!' && bytes.Count(m, []byte("/")) == 0) {
+			continue
+		}
+		for i := 0; i < len(m); i++ {
+			c.obsCase("edge+del", cat(m[:i], m[i+1:]), 3072)
+			c.obsCase("edge+dup", cat(m[:i+1], m[i:]), 3072)
+		}
 	}
 	for _, m := range multi {
 		for _, l := range limitsFor(len(m)) {
